@@ -207,7 +207,7 @@ func sleepShort() { time.Sleep(500 * time.Microsecond) }
 // Write*: they fit, and all of them reach the wire in order once the link recovers.
 func TestC11BacklogBelowQueueAfterOverflow(t *testing.T) {
 	rec := evid.New(t, "C11", "2..3 custom transports; one transport blocks until its 64-item queue has overflowed (70..120 items, the other links receive all of them), accepts exactly k = 6..40 writes and blocks again (64-k items queued); k-2-s items (s = 0..2) are written with WriteMessageTo / All / Except(nil) / Except(another channel): the backlog stays below the queue size, so after the recovery the wire must carry every one of them in order; non-trivial = always; distinct by hash of the parameters")
-	rec.Require("items-written-while-the-backlog-is-between-half-full-and-full-after-an-overflow", "written-to-all", "written-with-an-exclusion")
+	rec.Require("items-written-while-the-backlog-is-between-half-full-and-full-after-an-overflow", "written-to-all", "written-with-an-exclusion", "backlog-of-58-or-more-with-stream-requests-enabled")
 	evid.Check(t, rec, evid.N(30, 150), func(t *rapid.T) {
 		drawNodeInit(t)
 		nch := rapid.IntRange(2, 3).Draw(t, "nch")
@@ -215,12 +215,26 @@ func TestC11BacklogBelowQueueAfterOverflow(t *testing.T) {
 		k := rapid.IntRange(6, 40).Draw(t, "writes_accepted_in_between")
 		m := k - 2 - rapid.IntRange(0, 2).Draw(t, "slack")
 		how := rapid.IntRange(0, 3).Draw(t, "write_flavour")
-		desc := fmt.Sprintf("channels=%d overflowItems=%d acceptedInBetween=%d thenWritten=%d flavour=%s", nch, over, k, m, []string{"to", "all", "except-nil", "except-other"}[how])
-		if err := watchdog(scenarioLimit, func() error { return runC13Partial(nch, over, k, m, how) }); err != nil {
+		sr := rapid.Bool().Draw(t, "stream_requests_enabled")
+		if rapid.IntRange(0, 2).Draw(t, "nearly_full") > 0 {
+			// the backlog ends between 58 and 63 items: nearly full is not full - whatever else the node is set up to do
+			k = rapid.IntRange(3, 6).Draw(t, "writes_accepted_in_between_few")
+			m = k - 1 - rapid.IntRange(0, 1).Draw(t, "slack_few")
+			sr = true
+			how = rapid.IntRange(1, 3).Draw(t, "fan_out_flavour")
+		}
+		desc := fmt.Sprintf("channels=%d overflowItems=%d acceptedInBetween=%d thenWritten=%d flavour=%s streamRequestsEnabled=%v", nch, over, k, m, []string{"to", "all", "except-nil", "except-other"}[how], sr)
+		partialStreamRequests = sr
+		err := watchdog(scenarioLimit, func() error { return runC13Partial(nch, over, k, m, how) })
+		partialStreamRequests = false
+		if err != nil {
 			evid.ReplayNote("C11", "TestC11BacklogBelowQueueAfterOverflow", desc+"\n"+err.Error())
 			t.Fatalf("%s\n%v", desc, err)
 		}
 		cls := []string{"items-written-while-the-backlog-is-between-half-full-and-full-after-an-overflow"}
+		if sr && how > 0 && 64-k+m >= 59 {
+			cls = append(cls, "backlog-of-58-or-more-with-stream-requests-enabled")
+		}
 		switch how {
 		case 1:
 			cls = append(cls, "written-to-all")
